@@ -180,6 +180,18 @@ def gen_pool_cases(rng, tier):
         r = "%d,%d,%d,%d" % (a, b, c, d)
         yield Case("distcpus", [m, rm, gm, alpha, rows_str(rows), "_", r, cpus],
                    aln_nontrivial(rows), "distcpus-ranges-overlap" if ranges_overlap(r) else "distcpus-ranges")
+    # ---- the producer's job list (which pairs are handed to the workers) ----------------------------
+    for n in range(1, 10):      # (an empty alignment makes InitModel panic: Length() is -1; outside C08)
+        yield Case("distjobs", [n, "_", 1], n >= 3, "distjobs-half")
+    for _ in range(40 if quick else 400):
+        n = rng.randint(2, 9)
+        a, b = sorted([rng.randint(0, n - 1), rng.randint(0, n + 1)])
+        c, d = sorted([rng.randint(0, n - 1), rng.randint(0, n + 1)])
+        if rng.random() < 0.1:
+            a, b = b + 1, a       # min > max: error
+        r = "%d,%d,%d,%d" % (a, b, c, d)
+        yield Case("distjobs", [n, r, rng.choice([1, 1, 4])], n >= 3,
+                   "distjobs-ranges-overlap" if ranges_overlap(r) else "distjobs-ranges")
     # ---- failing model --------------------------------------------------------------------------
     nfail = 26 if quick else 200
     for i in range(nfail):
@@ -259,6 +271,10 @@ def classify_pool_case(c):
     if c.op == "distfail" and c.impl == "hang" and "hang" in (c.model or "").split("|"):
         # the pool model with the *extracted* discipline (error return skips wg.Done) predicts exactly this
         return "distmatrix-error-return-skips-done"
+    if c.op == "distjobs" and c.verdict == "fail:two-jobs-own-the-same-cells" and ranges_overlap(c.args[1]) \
+            and c.model == c.impl:
+        # (i,j) and (j,i) are both produced (Props.C08.rangeJobs_cells_overlap): the static side of the race below
+        return "distmatrix-overlapping-ranges-race"
     if c.op == "distpair" and (c.verdict or "").endswith(":zero-vs-2max"):
         # the relation fails only where one presentation yields (numerically) 0 and the other the 2*max substitute
         return "zero-distance-rounds-negative-becomes-2max"
@@ -344,6 +360,7 @@ def run_race_checks(binpath, cases, gomaxprocs=None, timeout_s=60.0, repeats=1):
     (runs, findings) where findings = list of {'case', 'gomaxprocs', 'report', 'result'}"""
     gomaxprocs = gomaxprocs or sorted({1, 2, 4, common.NCPU})
     jobs = [(c, g) for c in cases for g in gomaxprocs for _ in range(repeats)]
+    jobs.sort(key=lambda j: 0 if j[0].op == "distfail" else 1)      # the ones that may wait for a watchdog first
 
     def one(job):
         c, g = job
@@ -361,7 +378,7 @@ def run_race_checks(binpath, cases, gomaxprocs=None, timeout_s=60.0, repeats=1):
             return c, g, "hang", [], -1
     findings = []
     runs = 0
-    with ThreadPoolExecutor(max(2, common.NCPU // 2)) as ex:
+    with ThreadPoolExecutor(max(2, common.NCPU)) as ex:
         for c, g, res, reps, rc in ex.map(one, jobs):
             runs += 1
             for r in reps:
@@ -509,6 +526,26 @@ def pool_check(mod, tier, seed):
                 mism.append(c)
         return failing, mism
     failing, mismatching = classify(cases)
+
+    # ---- the same cases under other GOMAXPROCS values: answers must be identical -------------------------
+    det_ops = getattr(mod, "DETERMINISTIC_OPS", ("distcpus", "distjobs", "phase"))
+    det = [c for c in cases if c.op in det_ops]
+    gmp_diffs = []
+    for g in (1, 3):
+        env = common.goenv()
+        env["GOMAXPROCS"] = str(g)
+        again = [Case(c.op, c.args, c.nontrivial, c.tag) for c in det]
+        common.run_impl(binpath, again, timeout, nproc=common.NCPU, env=env)
+        for c, c2 in zip(det, again):
+            if c.impl != c2.impl and "ERR" not in (c.impl or "") and "ERR" not in (c2.impl or ""):
+                gmp_diffs.append((g, c, c2.impl))
+    res.add_obligation("answers identical under GOMAXPROCS 1 / 3 / default on %d cases" % len(det), not gmp_diffs,
+                       "runtime", "" if not gmp_diffs else "GOMAXPROCS=%d: %s" % (gmp_diffs[0][0], gmp_diffs[0][1].to_json()))
+    if gmp_diffs:
+        g, c, other = gmp_diffs[0]
+        p = common.write_replay(mod.ID, "gomaxprocs", {"property": mod.ID, "case": c.to_json(), "gomaxprocs": g,
+                                                       "impl_under_gomaxprocs": other})
+        res.violations.append(("answer depends on GOMAXPROCS (%d) on `%s`" % (g, c.line()[:120].replace("\t", " ")), "", p, False))
 
     # ---- runtime evidence: race detector ------------------------------------------------------------------
     race_cases = mod.race_cases(cases, tier)
